@@ -3,7 +3,7 @@
    RECURSION_LIMIT is [recursion_limit] of Generated/PbConsts.v (regenerated from pilota/src/prost/mod.rs on
    every run); enter_recursion is a CHECKED decrement whose underflow is the outcome [OPanic SEnterRecursion],
    so "limit_reached is tested first" is proved, not assumed. *)
-From PVPb Require Import Wire Codec Msg Proofs.WireP Proofs.TotalP Proofs.DepthP.
+From PVPb Require Import Wire Codec Msg Proofs.WireP Proofs.TotalP Proofs.DepthP Proofs.ShapeP.
 Open Scope Z_scope.
 
 (* C10_total: for EVERY decoder entry point (the three varint paths, keys, length delimiters, <module>::merge
@@ -16,6 +16,18 @@ Open Scope Z_scope.
 Theorem C10_total : forall (d : decoder) (l : list byte) (a : Z), total (run d (mkR l a)).
 Proof. exact total_all. Qed.
 Print Assumptions C10_total.
+
+(* for the generated messages of a well-formed schema the two artefacts of the model are both excluded: the outcome
+   of Message::decode is a value in the shape of its descriptor with the input consumed, or one of the
+   implementation's DecodeErrors -- not a panic, not out-of-fuel, not ill-typed *)
+Theorem C10_total_generated : forall sc i l a, schema_ok sc = true -> (i < length sc)%nat ->
+  match msg_decode sc i (mkR l a) with
+  | OOk x s' => shaped sc i x /\ rb s' = []
+  | OErr e _ => real_err e
+  | OPanic _ => False
+  end.
+Proof. exact msg_decode_total. Qed.
+Print Assumptions C10_total_generated.
 
 (* C10_alloc: the allocation ghost counter on exit (value or error) is at most the input length (c = 1;
    strings / bytes charge the checked length, Vec::push and map insert one unit per element that consumed at
